@@ -36,7 +36,7 @@ Qed.
 Lemma qt_head t : forall k, wf k t = true -> exists x r, qt_text t = x :: r /\ x <> 32.
 Proof.
   induction t as [b|q IH|l IHl r IHr|l IHl r IHr]; intros k H; cbn [wf qt_text] in *.
-  - apply bq_head.
+  - apply bq_head. exact H.
   - eexists _, _. split; [reflexivity|discriminate].
   - apply andb_true_iff in H. destruct H as [H _]. apply andb_true_iff in H. destruct H as [_ H].
     destruct (IHl _ H) as (x & s & E & Hx). rewrite E. eexists _, _. split; [reflexivity|exact Hx].
